@@ -1110,3 +1110,45 @@ Proof.
     + intros (f & ok & E & Hin & _). vm_compute in Hin. exact Hin.
     + exists false, true. vm_compute. intuition.
 Qed.
+
+(* hypotheses of the history theorem are satisfiable (a lower-version poll in the middle) *)
+Example ex_poll_history_hyps :
+  let l := [(1, ps_msgtype_poll, ex_snap 7); (2, ps_msgtype_request_poll, ex_snap 6); (3, ps_msgtype_poll, ex_snap 7)] in
+  all_valid_polls l /\ l <> [] /\ mem ex_k (s_susp init_state) = false /\
+  find_peer init_state ex_k = Some new_peer /\ peer_wf new_peer /\
+  option_map c_version (fold_polls None (polled_caps l)) = Some 7.
+Proof.
+  cbv zeta. split.
+  - constructor; [split; [left; reflexivity|split; [simpl; lia|eexists; vm_compute; reflexivity]]|].
+    constructor; [split; [right; reflexivity|split; [simpl; lia|eexists; vm_compute; reflexivity]]|].
+    constructor; [split; [left; reflexivity|split; [simpl; lia|eexists; vm_compute; reflexivity]]|constructor].
+  - repeat split; try discriminate; try reflexivity.
+Qed.
+
+(* hypotheses of the removal theorem are satisfiable: the sweep removes the disconnected expired peer *)
+Example ex_removal_hyps :
+  let s := run init_state
+    [(0, OMsg "a"%string ps_msgtype_poll (Some (ex_snap 7)));
+     (0, OMsg "b"%string ps_msgtype_poll (Some (ex_snap 7)));
+     (1, OConnect "a"%string true)] in
+  has_key "b"%string (s_store s) /\
+  ~ has_key "b"%string (s_store (state_after (step (ps_cleanup_timeout + 1) s OCleanup))) /\
+  has_key "a"%string (s_store (state_after (step (ps_cleanup_timeout + 1) s OCleanup))).
+Proof.
+  vm_compute. repeat split; auto. intros [H|[]]. discriminate.
+Qed.
+
+(* frame theorem hypotheses: a poll round rewrites the record (last poll time) with the same capability *)
+Example ex_frame_hyps :
+  let s := run init_state [(0, OMsg ex_k ps_msgtype_poll (Some (ex_snap 7)))] in
+  NoDup (keys (s_store s)) /\
+  exists r r', st_get ex_k (s_store s) = Some r /\
+    st_get ex_k (s_store (state_after (step 20000000000 s (OPoll false)))) = Some r' /\ r <> r'.
+Proof.
+  split; [apply reachable_nodup|]. vm_compute. eexists. eexists. repeat split. discriminate.
+Qed.
+
+Example ex_compatible :
+  has_compatible_peer (run init_state [(0, OMsg ex_k ps_msgtype_poll (Some (ex_snap ps_protocol_version)))]) ex_k = true /\
+  has_compatible_peer (run init_state [(0, OMsg ex_k ps_msgtype_poll (Some (ex_snap (ps_protocol_version + 1))))]) ex_k = false.
+Proof. vm_compute. split; reflexivity. Qed.
